@@ -4,7 +4,10 @@ import subprocess
 import tempfile
 import time
 
-import z3
+try:
+    import z3
+except ImportError:      # replays run under the repository's interpreter, without z3
+    z3 = None
 
 Z3_TIMEOUT_MS = int(os.environ.get('PYVC_Z3_TIMEOUT_MS', '10000'))
 CVC5_TIMEOUT_S = int(os.environ.get('PYVC_CVC5_TIMEOUT_S', '10'))
